@@ -23,6 +23,11 @@ open Py Py65.Spec
 @[flagalg] theorem setFlag_same_0 (p : Int) (b c : Bool) : setFlag (setFlag p 0 b) 0 c = setFlag p 0 c := by
   cases b <;> cases c <;> simp [setFlag] <;> omega
 
+@[flagalg] theorem setFlag_of_flag_0 (p : Int) (b : Bool) (h : flag p 0 = b) : setFlag p 0 b = p := by
+  subst h; simp only [setFlag, flag, eqB]
+  have h1 : p % 2 = 0 ∨ p % 2 = 1 := by omega
+  rcases h1 with h1 | h1 <;> simp [h1]
+
 @[flagalg] theorem flag_setFlag_same_0 (p : Int) (b : Bool) : flag (setFlag p 0 b) 0 = b := by
   cases b <;> simp [setFlag, flag, eqB] <;> omega
 
@@ -68,6 +73,11 @@ open Py Py65.Spec
 
 @[flagalg] theorem setFlag_same_1 (p : Int) (b c : Bool) : setFlag (setFlag p 1 b) 1 c = setFlag p 1 c := by
   cases b <;> cases c <;> simp [setFlag] <;> omega
+
+@[flagalg] theorem setFlag_of_flag_1 (p : Int) (b : Bool) (h : flag p 1 = b) : setFlag p 1 b = p := by
+  subst h; simp only [setFlag, flag, eqB]
+  have h1 : p / 2 % 2 = 0 ∨ p / 2 % 2 = 1 := by omega
+  rcases h1 with h1 | h1 <;> simp [h1]
 
 @[flagalg] theorem flag_setFlag_same_1 (p : Int) (b : Bool) : flag (setFlag p 1 b) 1 = b := by
   cases b <;> simp [setFlag, flag, eqB] <;> omega
@@ -118,6 +128,11 @@ open Py Py65.Spec
 
 @[flagalg] theorem setFlag_same_2 (p : Int) (b c : Bool) : setFlag (setFlag p 2 b) 2 c = setFlag p 2 c := by
   cases b <;> cases c <;> simp [setFlag] <;> omega
+
+@[flagalg] theorem setFlag_of_flag_2 (p : Int) (b : Bool) (h : flag p 2 = b) : setFlag p 2 b = p := by
+  subst h; simp only [setFlag, flag, eqB]
+  have h1 : p / 4 % 2 = 0 ∨ p / 4 % 2 = 1 := by omega
+  rcases h1 with h1 | h1 <;> simp [h1]
 
 @[flagalg] theorem flag_setFlag_same_2 (p : Int) (b : Bool) : flag (setFlag p 2 b) 2 = b := by
   cases b <;> simp [setFlag, flag, eqB] <;> omega
@@ -172,6 +187,11 @@ open Py Py65.Spec
 
 @[flagalg] theorem setFlag_same_3 (p : Int) (b c : Bool) : setFlag (setFlag p 3 b) 3 c = setFlag p 3 c := by
   cases b <;> cases c <;> simp [setFlag] <;> omega
+
+@[flagalg] theorem setFlag_of_flag_3 (p : Int) (b : Bool) (h : flag p 3 = b) : setFlag p 3 b = p := by
+  subst h; simp only [setFlag, flag, eqB]
+  have h1 : p / 8 % 2 = 0 ∨ p / 8 % 2 = 1 := by omega
+  rcases h1 with h1 | h1 <;> simp [h1]
 
 @[flagalg] theorem flag_setFlag_same_3 (p : Int) (b : Bool) : flag (setFlag p 3 b) 3 = b := by
   cases b <;> simp [setFlag, flag, eqB] <;> omega
@@ -230,6 +250,11 @@ open Py Py65.Spec
 
 @[flagalg] theorem setFlag_same_4 (p : Int) (b c : Bool) : setFlag (setFlag p 4 b) 4 c = setFlag p 4 c := by
   cases b <;> cases c <;> simp [setFlag] <;> omega
+
+@[flagalg] theorem setFlag_of_flag_4 (p : Int) (b : Bool) (h : flag p 4 = b) : setFlag p 4 b = p := by
+  subst h; simp only [setFlag, flag, eqB]
+  have h1 : p / 16 % 2 = 0 ∨ p / 16 % 2 = 1 := by omega
+  rcases h1 with h1 | h1 <;> simp [h1]
 
 @[flagalg] theorem flag_setFlag_same_4 (p : Int) (b : Bool) : flag (setFlag p 4 b) 4 = b := by
   cases b <;> simp [setFlag, flag, eqB] <;> omega
@@ -292,6 +317,11 @@ open Py Py65.Spec
 
 @[flagalg] theorem setFlag_same_5 (p : Int) (b c : Bool) : setFlag (setFlag p 5 b) 5 c = setFlag p 5 c := by
   cases b <;> cases c <;> simp [setFlag] <;> omega
+
+@[flagalg] theorem setFlag_of_flag_5 (p : Int) (b : Bool) (h : flag p 5 = b) : setFlag p 5 b = p := by
+  subst h; simp only [setFlag, flag, eqB]
+  have h1 : p / 32 % 2 = 0 ∨ p / 32 % 2 = 1 := by omega
+  rcases h1 with h1 | h1 <;> simp [h1]
 
 @[flagalg] theorem flag_setFlag_same_5 (p : Int) (b : Bool) : flag (setFlag p 5 b) 5 = b := by
   cases b <;> simp [setFlag, flag, eqB] <;> omega
@@ -358,6 +388,11 @@ open Py Py65.Spec
 
 @[flagalg] theorem setFlag_same_6 (p : Int) (b c : Bool) : setFlag (setFlag p 6 b) 6 c = setFlag p 6 c := by
   cases b <;> cases c <;> simp [setFlag] <;> omega
+
+@[flagalg] theorem setFlag_of_flag_6 (p : Int) (b : Bool) (h : flag p 6 = b) : setFlag p 6 b = p := by
+  subst h; simp only [setFlag, flag, eqB]
+  have h1 : p / 64 % 2 = 0 ∨ p / 64 % 2 = 1 := by omega
+  rcases h1 with h1 | h1 <;> simp [h1]
 
 @[flagalg] theorem flag_setFlag_same_6 (p : Int) (b : Bool) : flag (setFlag p 6 b) 6 = b := by
   cases b <;> simp [setFlag, flag, eqB] <;> omega
@@ -428,6 +463,11 @@ open Py Py65.Spec
 
 @[flagalg] theorem setFlag_same_7 (p : Int) (b c : Bool) : setFlag (setFlag p 7 b) 7 c = setFlag p 7 c := by
   cases b <;> cases c <;> simp [setFlag] <;> omega
+
+@[flagalg] theorem setFlag_of_flag_7 (p : Int) (b : Bool) (h : flag p 7 = b) : setFlag p 7 b = p := by
+  subst h; simp only [setFlag, flag, eqB]
+  have h1 : p / 128 % 2 = 0 ∨ p / 128 % 2 = 1 := by omega
+  rcases h1 with h1 | h1 <;> simp [h1]
 
 @[flagalg] theorem flag_setFlag_same_7 (p : Int) (b : Bool) : flag (setFlag p 7 b) 7 = b := by
   cases b <;> simp [setFlag, flag, eqB] <;> omega
@@ -502,6 +542,11 @@ open Py Py65.Spec
 
 @[flagalg] theorem setFlag_same_14 (p : Int) (b c : Bool) : setFlag (setFlag p 14 b) 14 c = setFlag p 14 c := by
   cases b <;> cases c <;> simp [setFlag] <;> omega
+
+@[flagalg] theorem setFlag_of_flag_14 (p : Int) (b : Bool) (h : flag p 14 = b) : setFlag p 14 b = p := by
+  subst h; simp only [setFlag, flag, eqB]
+  have h1 : p / 16384 % 2 = 0 ∨ p / 16384 % 2 = 1 := by omega
+  rcases h1 with h1 | h1 <;> simp [h1]
 
 @[flagalg] theorem flag_setFlag_same_14 (p : Int) (b : Bool) : flag (setFlag p 14 b) 14 = b := by
   cases b <;> simp [setFlag, flag, eqB] <;> omega
@@ -580,6 +625,11 @@ open Py Py65.Spec
 
 @[flagalg] theorem setFlag_same_15 (p : Int) (b c : Bool) : setFlag (setFlag p 15 b) 15 c = setFlag p 15 c := by
   cases b <;> cases c <;> simp [setFlag] <;> omega
+
+@[flagalg] theorem setFlag_of_flag_15 (p : Int) (b : Bool) (h : flag p 15 = b) : setFlag p 15 b = p := by
+  subst h; simp only [setFlag, flag, eqB]
+  have h1 : p / 32768 % 2 = 0 ∨ p / 32768 % 2 = 1 := by omega
+  rcases h1 with h1 | h1 <;> simp [h1]
 
 @[flagalg] theorem flag_setFlag_same_15 (p : Int) (b : Bool) : flag (setFlag p 15 b) 15 = b := by
   cases b <;> simp [setFlag, flag, eqB] <;> omega
